@@ -863,3 +863,285 @@ Proof.
   unfold block_kfold. rewrite <- !Nat.ltb_lt, <- orb_true_iff.
   destruct ((k <? 2) || (length (usort labels) <? k)); split; intros H; try reflexivity; discriminate.
 Qed.
+
+(** * G. BlockShuffleSplit *)
+
+(** np.argmin returns the first position of the minimum *)
+Lemma argmin_spec (l : list Q) : l <> [] ->
+  argmin l < length l /\
+  (forall j, j < length l -> (nth (argmin l) l 0 <= nth j l 0)%Q) /\
+  (forall j, j < argmin l -> (nth (argmin l) l 0 < nth j l 0)%Q).
+Proof.
+  induction l as [|x t IH]; intros Hne; [contradiction|].
+  destruct t as [|y t'].
+  - cbn [argmin length]. repeat split; [lia| |intros j Hj; lia].
+    intros j Hj. assert (j = 0) by lia. subst. cbn. apply Qle_refl.
+  - destruct (IH ltac:(discriminate)) as [H1 [H2 H3]].
+    set (t := y :: t') in *. set (i := argmin t) in *.
+    assert (E : argmin (x :: t) = if Qle_bool x (nth i t 0%Q) then 0 else S i) by reflexivity.
+    rewrite E. clear E. destruct (Qle_bool x (nth i t 0%Q)) eqn:Eq.
+    + apply Qle_bool_iff in Eq. repeat split; [cbn; lia| |intros j Hj; lia].
+      intros [|j] Hj; cbn [nth]; [apply Qle_refl|].
+      eapply Qle_trans; [exact Eq|]. apply H2. cbn [length] in Hj. lia.
+    + assert (Hlt : (nth i t 0 < x)%Q).
+      { apply Qnot_le_lt. intros Hc. apply Qle_bool_iff in Hc. congruence. }
+      repeat split; [cbn [length]; lia| |].
+      * intros [|j] Hj; cbn [nth]; [apply Qlt_le_weak, Hlt|]. apply H2. cbn [length] in Hj. lia.
+      * intros [|j] Hj; cbn [nth]; [exact Hlt|]. apply H3. lia.
+Qed.
+
+Lemma groups_length {A} k b (l : list A) : length (groups k b l) = k.
+Proof. revert l. induction k as [|k IH]; intros l; cbn; [reflexivity|f_equal; apply IH]. Qed.
+
+Lemma groups_full {A} k b : forall (l : list A), length l = k * b ->
+  Forall (fun g => length g = b) (groups k b l).
+Proof.
+  induction k as [|k IH]; intros l Hl; cbn [groups]; constructor.
+  - rewrite firstn_length. lia.
+  - apply IH. rewrite skipn_length. lia.
+Qed.
+
+Lemma groups_In {A} k b : forall (l : list A) g x, In g (groups k b l) -> In x g -> In x l.
+Proof.
+  induction k as [|k IH]; intros l g x Hg Hx; cbn [groups] in Hg; [destruct Hg|].
+  destruct Hg as [<-|Hg].
+  - rewrite <- (firstn_skipn b l). apply in_or_app. left. exact Hx.
+  - rewrite <- (firstn_skipn b l). apply in_or_app. right. eapply IH; eassumption.
+Qed.
+
+Lemma where_isin_nil labels : where_isin labels [] = [].
+Proof. unfold where_isin. cbn. induction (seq 0 (length labels)); [reflexivity|assumption]. Qed.
+
+(** the index set handed to sklearn's split is always the point set of a set of blocks *)
+Lemma best_candidate_blocks labels ids draws :
+  exists B, best_candidate (map (candidate labels ids) draws) = where_isin labels B.
+Proof.
+  unfold best_candidate. set (cs := map (candidate labels ids) draws).
+  destruct (Nat.lt_ge_cases (argmin (map fst cs)) (length cs)) as [H|H].
+  - unfold cs in *. rewrite map_length in H.
+    exists (take ids (snd (nth (argmin (map fst (map (candidate labels ids) draws))) draws ([], [])))).
+    rewrite (nth_indep _ _ (candidate labels ids ([], []))) by (rewrite map_length; exact H).
+    rewrite map_nth. reflexivity.
+  - exists []. rewrite nth_overflow by exact H. cbn. symmetry. apply where_isin_nil.
+Qed.
+
+Lemma bss_inv labels ns b ts tr perms splits :
+  block_shuffle_split labels ns b ts tr perms = Some splits -> ns <> 0 ->
+  1 <= b /\ exists ntr nte,
+    validate_shuffle_split (length (usort labels)) ts tr = Some (ntr, nte) /\
+    splits = map (fun g => sk_split (length labels) (best_candidate (group_candidates labels ntr nte g)))
+                 (groups ns b perms).
+Proof.
+  unfold block_shuffle_split. destruct (b <? 1) eqn:E1; [discriminate|]. apply Nat.ltb_ge in E1.
+  destruct (ns =? 0) eqn:E2; [apply Nat.eqb_eq in E2; intros _ H; contradiction|].
+  destruct (validate_shuffle_split (length (usort labels)) ts tr) as [[ntr nte]|]; [|discriminate].
+  intros H _. injection H as <-. split; [exact E1|]. exists ntr, nte. split; reflexivity.
+Qed.
+
+(** n_splits splits *)
+Theorem bss_count labels ns b ts tr perms splits :
+  block_shuffle_split labels ns b ts tr perms = Some splits -> length splits = ns.
+Proof.
+  destruct (Nat.eq_dec ns 0) as [->|Hne].
+  - unfold block_shuffle_split. destruct (b <? 1); [discriminate|]. cbn. intros H. injection H as <-. reflexivity.
+  - intros H. destruct (bss_inv _ _ _ _ _ _ _ H Hne) as [_ [ntr [nte [_ ->]]]].
+    rewrite map_length. apply groups_length.
+Qed.
+
+(** every split partitions the samples and keeps blocks whole *)
+Theorem bss_partition labels ns b ts tr perms splits :
+  block_shuffle_split labels ns b ts tr perms = Some splits ->
+  Forall (fun s => Permutation (fst s ++ snd s) (seq 0 (length labels)) /\
+                   forall i j, In i (fst s) -> In j (snd s) -> lab labels i <> lab labels j) splits.
+Proof.
+  destruct (Nat.eq_dec ns 0) as [->|Hne].
+  - unfold block_shuffle_split. destruct (b <? 1); [discriminate|]. cbn. intros H. injection H as <-. constructor.
+  - intros H. destruct (bss_inv _ _ _ _ _ _ _ H Hne) as [_ [ntr [nte [_ ->]]]].
+    rewrite Forall_forall. intros s Hs. apply in_map_iff in Hs as [g [<- _]]. split; [apply sk_split_perm|].
+    unfold group_candidates. rewrite <- (map_map (shuffle_draw ntr nte) (candidate labels (usort labels))).
+    destruct (best_candidate_blocks labels (usort labels) (map (shuffle_draw ntr nte) g)) as [B ->].
+    intros i j. apply sk_split_blocks.
+Qed.
+
+(** the test set of each split is the test set of the FIRST candidate of its
+    group of [balancing] draws that minimises the imbalance *)
+Definition best_of (cs : list (Q * list nat)) (test : list nat) : Prop :=
+  exists m, m < length cs /\ test = snd (nth m cs (0%Q, [])) /\
+    (forall j, j < length cs -> (fst (nth m cs (0%Q, [])) <= fst (nth j cs (0%Q, [])))%Q) /\
+    (forall j, j < m -> (fst (nth m cs (0%Q, [])) < fst (nth j cs (0%Q, [])))%Q).
+
+Lemma best_candidate_best cs : cs <> [] -> best_of cs (best_candidate cs).
+Proof.
+  intros Hne. unfold best_candidate.
+  assert (Hne' : map fst cs <> []) by (destruct cs; [contradiction|discriminate]).
+  destruct (argmin_spec (map fst cs) Hne') as [H1 [H2 H3]]. rewrite map_length in H1, H2.
+  exists (argmin (map fst cs)). split; [exact H1|]. split; [reflexivity|].
+  assert (Hn : forall j, nth j (map fst cs) 0%Q = fst (nth j cs (0%Q, []))) by (intros j; apply (map_nth fst cs (0%Q, []))).
+  split.
+  - intros j Hj. rewrite <- !Hn. apply H2, Hj.
+  - intros j Hj. rewrite <- !Hn. apply H3, Hj.
+Qed.
+
+Theorem bss_best labels ns b ts tr perms splits ntr nte :
+  block_shuffle_split labels ns b ts tr perms = Some splits -> ns <> 0 ->
+  validate_shuffle_split (length (usort labels)) ts tr = Some (ntr, nte) ->
+  length perms = ns * b ->
+  Forall2 (fun s g => length g = b /\ best_of (group_candidates labels ntr nte g) (snd s))
+          splits (groups ns b perms).
+Proof.
+  intros H Hne Hv Hl. destruct (bss_inv _ _ _ _ _ _ _ H Hne) as [Hb [ntr' [nte' [Hv' ->]]]].
+  rewrite Hv in Hv'. injection Hv' as <- <-.
+  assert (Hfull := groups_full ns b perms Hl).
+  clear H. induction Hfull as [|g gs Hg _ IH]; cbn [map]; [constructor|].
+  constructor; [|exact IH].
+  split; [exact Hg|]. cbn [snd].
+  unfold group_candidates at 2. rewrite <- (map_map (shuffle_draw ntr nte) (candidate labels (usort labels))).
+  destruct (best_candidate_blocks labels (usort labels) (map (shuffle_draw ntr nte) g)) as [B HB].
+  rewrite map_map in HB. fold (group_candidates labels ntr nte g) in HB. rewrite map_map.
+  fold (group_candidates labels ntr nte g). rewrite HB, sk_split_test, <- HB.
+  apply best_candidate_best. unfold group_candidates. destruct g; [cbn in Hg; lia|discriminate].
+Qed.
+
+(** ** sklearn's _validate_shuffle_split *)
+
+Lemma size_ok_float nz d : size_bad nz (SFloat d) = false -> (0 < D2Q d)%Q /\ (D2Q d < 1)%Q.
+Proof.
+  cbn [size_bad]. intros H. apply orb_false_iff in H as [H1 H2]. split; apply Qnot_le_lt; intros Hc;
+    apply Qle_bool_iff in Hc; congruence.
+Qed.
+
+Lemma size_ok_int nz z : size_bad nz (SInt z) = false -> (0 < z < nz)%Z.
+Proof. cbn [size_bad]. intros H. apply orb_false_iff in H as [H1 H2]. lia. Qed.
+
+Lemma frac_bounds q nz : (0 < q)%Q -> (q < 1)%Q -> (0 <= nz)%Z ->
+  (0 <= q * inject_Z nz)%Q /\ (q * inject_Z nz <= inject_Z nz)%Q /\
+  ((0 < nz)%Z -> (0 < q * inject_Z nz)%Q /\ (q * inject_Z nz < inject_Z nz)%Q).
+Proof.
+  intros H0 H1 Hn. assert (Hq : (0 <= inject_Z nz)%Q) by (change (inject_Z 0 <= inject_Z nz)%Q; rewrite <- Zle_Qle; exact Hn).
+  split; [apply Qmult_le_0_compat; [apply Qlt_le_weak, H0|exact Hq]|].
+  split.
+  - rewrite <- (Qmult_1_l (inject_Z nz)) at 2. apply Qmult_le_compat_r; [apply Qlt_le_weak, H1|exact Hq].
+  - intros Hp. assert (Hq' : (0 < inject_Z nz)%Q) by (change (inject_Z 0 < inject_Z nz)%Q; rewrite <- Zlt_Qlt; exact Hp). split.
+    + apply Qmult_lt_0_compat; assumption.
+    + rewrite <- (Qmult_1_l (inject_Z nz)) at 2. apply Qmult_lt_compat_r; assumption.
+Qed.
+
+Lemma ceil_bounds q nz : (0 < q)%Q -> (q < 1)%Q -> (0 <= nz)%Z ->
+  (0 <= Qceiling (q * inject_Z nz) <= nz)%Z /\ ((0 < nz)%Z -> (1 <= Qceiling (q * inject_Z nz))%Z).
+Proof.
+  intros H0 H1 Hn. destruct (frac_bounds q nz H0 H1 Hn) as [Ha [Hb Hc]].
+  split; [split|].
+  - change 0%Z with (Qceiling (inject_Z 0)). apply Qceiling_resp_le, Ha.
+  - rewrite <- (Qceiling_Z nz) at 2. apply Qceiling_resp_le, Hb.
+  - intros Hp. destruct (Hc Hp) as [Hd _].
+    assert (Hl := Qle_ceiling (q * inject_Z nz)).
+    assert (Hz : (0 < inject_Z (Qceiling (q * inject_Z nz)))%Q) by (eapply Qlt_le_trans; eassumption).
+    change (inject_Z 0 < inject_Z (Qceiling (q * inject_Z nz)))%Q in Hz. rewrite <- Zlt_Qlt in Hz. lia.
+Qed.
+
+Lemma floor_bounds q nz : (0 < q)%Q -> (q < 1)%Q -> (0 <= nz)%Z ->
+  (0 <= Qfloor (q * inject_Z nz) <= nz)%Z /\ ((0 < nz)%Z -> (Qfloor (q * inject_Z nz) < nz)%Z).
+Proof.
+  intros H0 H1 Hn. destruct (frac_bounds q nz H0 H1 Hn) as [Ha [Hb Hc]].
+  split; [split|].
+  - change 0%Z with (Qfloor (inject_Z 0)). apply Qfloor_resp_le, Ha.
+  - rewrite <- (Qfloor_Z nz) at 2. apply Qfloor_resp_le, Hb.
+  - intros Hp. destruct (Hc Hp) as [_ Hd].
+    assert (Hl := Qfloor_le (q * inject_Z nz)).
+    assert (Hz : (inject_Z (Qfloor (q * inject_Z nz)) < inject_Z nz)%Q) by (eapply Qle_lt_trans; eassumption).
+    rewrite <- Zlt_Qlt in Hz. exact Hz.
+Qed.
+
+Local Opaque Qfloor Qceiling.
+
+(** both sides get at least one block and they fit in the number of blocks *)
+Theorem validate_bounds n ts tr ntr nte :
+  validate_shuffle_split n ts tr = Some (ntr, nte) -> 1 <= ntr /\ 1 <= nte /\ ntr + nte <= n.
+Proof.
+  intros H. assert (Hnz : (0 <= Z.of_nat n)%Z) by lia.
+  destruct ts as [|t|t], tr as [|r|r];
+    cbv beta iota zeta delta [validate_shuffle_split] in H;
+    repeat match type of H with
+           | (if ?c then None else _) = Some _ => let E := fresh "E" in destruct c eqn:E; [discriminate|]
+           end;
+    change (fst (?a, ?b)) with a in *; change (snd (?a, ?b)) with b in *;
+    injection H as <- <-;
+    try (apply orb_false_iff in E as [Ea Eb]);
+    repeat match goal with
+           | Hb : size_bad _ (SFloat ?d) = false |- _ =>
+               let H0 := fresh "Hq" in let H1 := fresh "Hq" in
+               destruct (size_ok_float _ _ Hb) as [H0 H1]; clear Hb;
+               let C := fresh "Hc" in let F := fresh "Hf" in
+               assert (C := ceil_bounds _ _ H0 H1 Hnz); assert (F := floor_bounds _ _ H0 H1 Hnz)
+           | Hb : size_bad _ (SInt ?z) = false |- _ => apply size_ok_int in Hb
+           end;
+    lia.
+Qed.
+
+Local Transparent Qfloor Qceiling.
+
+(** the test set of every split consists of exactly n_test whole blocks *)
+Lemma n_blocks_where_isin labels B : NoDup B -> (forall x, In x B -> In x labels) ->
+  n_blocks_of labels (where_isin labels B) = length B.
+Proof.
+  intros Hn Hsub. unfold n_blocks_of. apply Permutation_length, NoDup_Permutation; [apply usort_NoDup|exact Hn|].
+  intros x. rewrite usort_In, in_map_iff. split.
+  - intros [j [<- Hj]]. apply In_where_isin in Hj. tauto.
+  - intros Hx. destruct (In_nth labels x 0 (Hsub x Hx)) as [j [Hj E]].
+    exists j. split; [exact E|]. apply In_where_isin. split; [exact Hj|]. unfold lab. rewrite E. exact Hx.
+Qed.
+
+Lemma take_perm_firstn ids p m : NoDup ids -> Permutation p (seq 0 (length ids)) -> m <= length ids ->
+  NoDup (take ids (firstn m p)) /\ length (take ids (firstn m p)) = m /\
+  (forall x, In x (take ids (firstn m p)) -> In x ids).
+Proof.
+  intros Hn Hp Hm.
+  assert (Hall : Permutation (take ids p) ids).
+  { rewrite <- (take_seq ids) at 2. apply Permutation_map, Hp. }
+  assert (Hnd : NoDup (take ids p)) by (eapply Permutation_NoDup; [apply Permutation_sym, Hall|exact Hn]).
+  assert (Hsplit : take ids p = take ids (firstn m p) ++ take ids (skipn m p)).
+  { unfold take. rewrite <- map_app, firstn_skipn. reflexivity. }
+  rewrite Hsplit in Hnd. apply NoDup_app_inv in Hnd as [H1 _].
+  split; [exact H1|]. split.
+  - unfold take. rewrite map_length, firstn_length. rewrite (Permutation_length Hp), seq_length. lia.
+  - intros x Hx. apply (Permutation_in x Hall). rewrite Hsplit. apply in_or_app. left. exact Hx.
+Qed.
+
+Theorem bss_n_test labels ns b ts tr perms splits ntr nte :
+  block_shuffle_split labels ns b ts tr perms = Some splits -> ns <> 0 ->
+  validate_shuffle_split (length (usort labels)) ts tr = Some (ntr, nte) ->
+  length perms = ns * b ->
+  Forall (fun p => Permutation p (seq 0 (length (usort labels)))) perms ->
+  Forall (fun s => n_blocks_of labels (snd s) = nte) splits.
+Proof.
+  intros H Hne Hv Hl Hperms.
+  assert (Hbest := bss_best _ _ _ _ _ _ _ _ _ H Hne Hv Hl).
+  destruct (validate_bounds _ _ _ _ _ Hv) as [_ [_ Hle]].
+  assert (Hin : forall g, In g (groups ns b perms) -> forall p, In p g -> Permutation p (seq 0 (length (usort labels)))).
+  { intros g Hg p Hp. rewrite Forall_forall in Hperms. apply Hperms. eapply groups_In; eassumption. }
+  clear H. revert Hbest Hin. generalize (groups ns b perms) as gs0. intros gs0 Hbest.
+  induction Hbest as [|s g ss gs [_ [m [Hm [Ht _]]]] _ IH]; intros Hin; constructor.
+  - rewrite Ht. unfold group_candidates in *. rewrite map_length in Hm.
+    rewrite (nth_indep _ _ (candidate labels (usort labels) (shuffle_draw ntr nte []))) by (rewrite map_length; exact Hm).
+    rewrite (map_nth (fun p => candidate labels (usort labels) (shuffle_draw ntr nte p))).
+    cbn [candidate snd shuffle_draw].
+    assert (Hp : Permutation (nth m g []) (seq 0 (length (usort labels)))) by (apply (Hin g (or_introl eq_refl)), nth_In, Hm).
+    destruct (take_perm_firstn (usort labels) (nth m g []) nte (usort_NoDup labels) Hp ltac:(lia)) as [H1 [H2 H3]].
+    rewrite n_blocks_where_isin; [exact H2|exact H1|]. intros x Hx. apply usort_In, H3, Hx.
+  - apply IH. intros g' Hg'. apply Hin. right. exact Hg'.
+Qed.
+
+(** rejection *)
+Theorem bss_rejects labels ns b ts tr perms :
+  block_shuffle_split labels ns b ts tr perms = None <->
+  (b < 1 \/ (ns <> 0 /\ validate_shuffle_split (length (usort labels)) ts tr = None)).
+Proof.
+  unfold block_shuffle_split. destruct (b <? 1) eqn:E1.
+  - apply Nat.ltb_lt in E1. split; [intros _; left; exact E1|reflexivity].
+  - apply Nat.ltb_ge in E1. destruct (ns =? 0) eqn:E2.
+    + apply Nat.eqb_eq in E2. split; [discriminate|]. intros [Hb|[Hn _]]; [lia|contradiction].
+    + apply Nat.eqb_neq in E2.
+      destruct (validate_shuffle_split (length (usort labels)) ts tr) as [[a c]|].
+      * split; [discriminate|]. intros [Hb|[_ Hn]]; [lia|discriminate].
+      * split; [intros _; right; split; [exact E2|reflexivity]|reflexivity].
+Qed.
